@@ -861,9 +861,10 @@ class Compiler:
             self._compile_expression(node.discriminant)
 
             jump_to_body: List[Tuple[int, int]] = []
-            default_jump = None
+            default_index = None
 
-            # Compile case tests
+            # Compile case tests (all of them: the default clause is taken
+            # only when no test matches, wherever it is written)
             for i, case in enumerate(node.cases):
                 if case.test:
                     self._emit(OpCode.DUP)
@@ -872,10 +873,10 @@ class Compiler:
                     pos = self._emit_jump(OpCode.JUMP_IF_TRUE)
                     jump_to_body.append((pos, i))
                 else:
-                    default_jump = (self._emit_jump(OpCode.JUMP), i)
+                    default_index = i
 
-            # Jump to end if no match
-            jump_end = self._emit_jump(OpCode.JUMP)
+            # No match: jump to the default clause, or to the end
+            jump_no_match = self._emit_jump(OpCode.JUMP)
 
             # Case bodies
             case_positions = []
@@ -887,16 +888,16 @@ class Compiler:
                 for stmt in case.consequent:
                     self._compile_statement(stmt)
 
-            self._patch_jump(jump_end)
             pop_pos = len(self.bytecode)
             self._emit(OpCode.POP)  # Pop discriminant
 
             # Patch jumps to case bodies
             for pos, idx in jump_to_body:
                 self._patch_jump(pos, case_positions[idx])
-            if default_jump:
-                pos, idx = default_jump
-                self._patch_jump(pos, case_positions[idx])
+            if default_index is not None:
+                self._patch_jump(jump_no_match, case_positions[default_index])
+            else:
+                self._patch_jump(jump_no_match, pop_pos)
 
             # Patch break jumps (break also has to pop the discriminant)
             for pos in loop_ctx.break_jumps:
